@@ -3,4 +3,4 @@ CONSTANTS
   Full = FALSE
   DEV_SmallAngleLinearised = TRUE
   DEV_EnvironmentNotMoved = FALSE
-INVARIANT LawImplRigid
+INVARIANT G_LawImplRigid
